@@ -385,8 +385,7 @@ impl McnkChunk {
 
             // Read the actual data using size_liquid from MCNK header.
             // size_liquid counts the 8-byte MCLQ chunk header that was just consumed.
-            let mut data = vec![0u8; header.size_liquid.saturating_sub(8) as usize];
-            reader.read_exact(&mut data)?;
+            let data = read_exact_bounded(reader, header.size_liquid.saturating_sub(8))?;
 
             if !data.is_empty() {
                 // Pass MCNK flags to MCLQ parser for liquid type detection
@@ -482,6 +481,25 @@ impl McnkChunk {
     }
 }
 
+/// Read exactly `size` bytes of sub-chunk data.
+///
+/// `size` comes from a sub-chunk header or from the MCNK header and is not trusted for the
+/// allocation: the buffer only grows with the bytes that are really there, and a size that
+/// reaches past the end of the input is reported as an unexpected end of file.
+fn read_exact_bounded<R: Read>(reader: &mut R, size: u32) -> BinResult<Vec<u8>> {
+    let mut data = Vec::new();
+    reader
+        .by_ref()
+        .take(u64::from(size))
+        .read_to_end(&mut data)?;
+    if data.len() != size as usize {
+        return Err(binrw::Error::Io(std::io::Error::from(
+            std::io::ErrorKind::UnexpectedEof,
+        )));
+    }
+    Ok(data)
+}
+
 /// Read a subchunk from within an MCNK chunk.
 ///
 /// Seeks to the specified offset (relative to MCNK chunk start), reads the
@@ -530,10 +548,7 @@ fn read_subchunk<R: Read + Seek>(
     })?;
 
     // Read subchunk data
-    let mut data = vec![0u8; subchunk_header.size as usize];
-    reader.read_exact(&mut data)?;
-
-    Ok(data)
+    read_exact_bounded(reader, subchunk_header.size)
 }
 
 /// Read a subchunk with a known expected size.
@@ -600,10 +615,7 @@ fn read_subchunk_with_size<R: Read + Seek>(
     }
 
     // Read subchunk data using the expected size
-    let mut data = vec![0u8; expected_size as usize];
-    reader.read_exact(&mut data)?;
-
-    Ok(data)
+    read_exact_bounded(reader, expected_size)
 }
 
 /// Scan for a subchunk by chunk ID (used for MoP 5.3+ when offsets aren't in header).
@@ -641,9 +653,7 @@ fn scan_for_subchunk<R: Read + Seek>(
 
         if subchunk_header.id == target_id {
             // Found it! Read the data
-            let mut data = vec![0u8; subchunk_header.size as usize];
-            reader.read_exact(&mut data)?;
-            return Ok(data);
+            return read_exact_bounded(reader, subchunk_header.size);
         }
 
         // Move to next potential chunk (header + data)
